@@ -33,6 +33,8 @@ type goProg struct {
 	coll     *collector
 	hooks    goHooks
 	recovers bool            // panics are recovered into an error result
+	recoverDefer *ssa.Defer  // the defer statement that installs the recovering handler
+	pre      func(g *goProg, a *AbsState) // extra preconditions on the parameters
 	assertRoots map[string]bool // roots whose index/slice operations are obligations (no-panic); others are assumptions
 	lenSym   map[string]Lin  // root -> original length symbol of parameter slices
 	capSym   map[string]Lin
@@ -250,6 +252,9 @@ func (g *goProg) initial() *AbsState {
 			}
 		}
 	}
+	if g.pre != nil {
+		g.pre(g, a)
+	}
 	return a
 }
 
@@ -308,6 +313,16 @@ func (g *goProg) setSlice(a *AbsState, v ssa.Value, s sliceAbs) {
 // panic. For assert-roots it is an obligation; otherwise an assumption.
 func (g *goProg) need(a *AbsState, in ssa.Instruction, root, what string, cond Lin, check bool) {
 	// cond <= 0 required
+	if g.recovers && !g.assertRoots[root] && !g.covered(in) {
+		// recover mode, but the handler is not installed yet on some path to this
+		// instruction: a panic here would escape, so absence of the panic is an obligation
+		if check {
+			g.coll.check("uncovered", g.siteKey(in, what), g.prog.InstrPos(in), what+" cannot panic (it is not covered by the deferred recover)", a.st.entails(cond), func() string {
+				st, mx := a.st.max(cond)
+				return fmt.Sprintf("%s: max violation %v/%s over state from block %d; the deferred recover does not dominate this instruction", cond.Str(g.tab), st, mx.String(), a.from)
+			})
+		}
+	}
 	if g.assertRoots[root] {
 		if check {
 			g.coll.check("nopanic", g.siteKey(in, what), g.prog.InstrPos(in), what+" cannot panic", a.st.entails(cond), func() string {
@@ -317,6 +332,18 @@ func (g *goProg) need(a *AbsState, in ssa.Instruction, root, what string, cond L
 		}
 	}
 	a.st.le(cond)
+}
+
+// covered: the recovering defer statement is executed on every path to in.
+func (g *goProg) covered(in ssa.Instruction) bool {
+	d := g.recoverDefer
+	if d == nil {
+		return false
+	}
+	if d.Block() == in.Block() {
+		return idxOf(d) < idxOf(in)
+	}
+	return d.Block().Dominates(in.Block())
 }
 
 func (g *goProg) siteKey(in ssa.Instruction, what string) string {
@@ -1122,11 +1149,15 @@ func (g *goProg) computeLive() {
 }
 
 // analyseGoFunc runs the prover on one function.
+// goPre: preconditions for the next analyseGoFunc call (consumed by it).
+var goPre func(g *goProg, a *AbsState)
+
 func analyseGoFunc(p *Program, fn *ssa.Function, name string, assertRoots []string, hooks goHooks, coll *collector) (*bndResult, *goProg, error) {
 	tab := newSymTab()
 	tab.allNonneg = true
 	defaultTab = tab
-	g := &goProg{fn: fn, prog: p, tab: tab, coll: coll, hooks: hooks, assertRoots: map[string]bool{}, lenSym: map[string]Lin{}, capSym: map[string]Lin{}, ordinal: map[ssa.Instruction]int{}, two63: qPow2(63), two64: qPow2(64), name: name}
+	g := &goProg{fn: fn, prog: p, tab: tab, coll: coll, hooks: hooks, assertRoots: map[string]bool{}, lenSym: map[string]Lin{}, capSym: map[string]Lin{}, ordinal: map[ssa.Instruction]int{}, two63: qPow2(63), two64: qPow2(64), name: name, pre: goPre}
+	goPre = nil
 	for _, r := range assertRoots {
 		g.assertRoots[r] = true
 	}
@@ -1154,6 +1185,9 @@ func analyseGoFunc(p *Program, fn *ssa.Function, name string, assertRoots []stri
 					allInstrs(f, func(j ssa.Instruction) {
 						if _, isRec := isBuiltinCall(j, "recover"); isRec {
 							g.recovers = true
+							if g.recoverDefer == nil {
+								g.recoverDefer = d
+							}
 						}
 					})
 				}
